@@ -30,7 +30,7 @@ MANIFEST = {
     'technique': 'deductive: AST frame (write-set) analysis + VCs from the real AST of gemdat/pymatgen __getitem__, split, extend, filter; z3; native '
                  'replay; random API call sequences vs a shadow model as bounded stand-in',
 }
-UNITS = ['unit_frame', 'unit_getitem', 'unit_split', 'unit_extend', 'unit_dep_filter', 'unit_dep_view_lemmas', 'unit_dep_to_positions']
+UNITS = ['unit_frame', 'unit_getitem', 'unit_split', 'unit_extend', 'unit_dep_filter', 'unit_dep_view_lemmas', 'unit_dep_to_positions', 'unit_plumbing']
 BOUNDED = ['bounded_sequences']
 META = {'clauses': {'C15.frame': 'P (AST analysis)', 'C15.view': 'P (C01 lemmas)', 'C15.slice': 'P (slices with step 1; int / list index B)', 'C15.filter': 'P (C13)',
                     'C15.split': 'P', 'C15.extend': 'P', 'C15.query': 'P via the contracts of C01/C06/C08/C13/C14'},
@@ -563,3 +563,11 @@ def bounded_sequences(tier, seed):
         if r['reproduced']:
             st.violation('sequence', r['detail'], 'verif.props.c15:replay_sequence', inp)
     return st.result()
+
+
+# plumbing around the anchored functions: forwarding contracts of the public wrappers, no state shared between calls or objects
+from verif.props import plumbing as _plumbing  # noqa: E402
+
+
+def unit_plumbing(tier):
+    return _plumbing.unit_plumbing(PROPERTY)
